@@ -21,7 +21,7 @@ const maxPosV = 400
 func posVar(name string) token.Pos { return token.Pos(vrt.Int(name, 1, maxPosV)) }
 
 // intfDecl builds `type <name> interface { [M(x) ] }` with symbolic brace (and parameter list) positions.
-func intfDecl(name string, lbrace, rbrace token.Pos, withMethod bool) *ast.GenDecl {
+func intfDecl(name string, typePos, lbrace, rbrace token.Pos, withMethod bool) *ast.GenDecl {
 	fl := &ast.FieldList{Opening: lbrace, Closing: rbrace}
 	if withMethod {
 		// the method text is "\nF(*S)*D\n" right after the opening brace
@@ -32,7 +32,7 @@ func intfDecl(name string, lbrace, rbrace token.Pos, withMethod bool) *ast.GenDe
 			Type:  &ast.FuncType{Params: &ast.FieldList{Opening: open, Closing: cl}},
 		}}
 	}
-	return &ast.GenDecl{Tok: token.TYPE, Specs: []ast.Spec{
+	return &ast.GenDecl{TokPos: typePos, Tok: token.TYPE, Specs: []ast.Spec{
 		&ast.TypeSpec{Name: &ast.Ident{Name: name}, Type: &ast.InterfaceType{Methods: fl}},
 	}}
 }
@@ -74,9 +74,20 @@ func C03MarkerLayout() {
 		header += 16
 	}
 	la, ra := posVar("A.lbrace"), posVar("A.rbrace")
-	vrt.Assume(la < ra && header+typeText <= la)
+	// the `type` keyword of A: directly in front of "Convergen interface {" - or further up, with
+	// a comment in the HEAD of the declaration ("type /* c */ Convergen interface {" over lines)
+	ta := la - typeText + 1
+	var headComment *ast.CommentGroup
+	if vrt.Bool("commentInHeadOfA") {
+		ta = posVar("A.type")
+		at := posVar("head.pos")
+		headComment = commentGroup("head", at, 1)
+		// "type" (4 bytes + blank), the comment and its line break, then " Convergen interface " (21 bytes) before the brace
+		vrt.Assume(ta+5 <= at && headComment.End()+1+21 <= la)
+	}
+	vrt.Assume(la < ra && header+1 <= ta && ta+typeText-1 <= la)
 	methodA := vrt.Bool("A.hasMethod")
-	declA := intfDecl("A", la, ra, methodA)
+	declA := intfDecl("A", ta, la, ra, methodA)
 	var original []*ast.Comment
 	add := func(g *ast.CommentGroup) {
 		file.Comments = append(file.Comments, g)
@@ -91,8 +102,12 @@ func C03MarkerLayout() {
 		}
 		n := 1 + vrt.Choose("before.lines", maxLines)
 		g := commentGroup("before", at, n)
-		vrt.Assume(header <= at && g.End()+1+typeText <= la)
+		vrt.Assume(header <= at && g.End()+2 <= ta)
 		add(g)
+	}
+	if headComment != nil {
+		// (a comment inside the declaration that is cut out: it is not expected to survive)
+		file.Comments = append(file.Comments, headComment)
 	}
 	// optional comment group inside A's body
 	if vrt.Bool("commentInsideA") {
@@ -111,7 +126,7 @@ func C03MarkerLayout() {
 	if two {
 		lb, rb := posVar("B.lbrace"), posVar("B.rbrace")
 		vrt.Assume(ra+2+typeTextB <= lb && lb < rb)
-		declB := intfDecl("B", lb, rb, false)
+		declB := intfDecl("B", lb-16, lb, rb, false) // "type B interface " is 17 bytes
 		vrt.SetEnv("astpath:B", []ast.Node{declB})
 		eb := parser.VerifEntry{Obj: types.NewTypeName(token.NoPos, nil, "B", nil), Marker: "MARKERBBBBBBBBBBBBBBB"}
 		if vrt.Bool("processBFirst") {
@@ -162,6 +177,9 @@ func C03MarkerLayout() {
 		first = false
 		prev = g.List[0].Slash
 		for _, c := range g.List {
+			if headComment != nil && c == headComment.List[0] {
+				continue // lies between A's markers and goes with the interface
+			}
 			if len(c.Text) == 21 && c.Text[:6] == "MARKER" {
 				vrt.Assert("marker-is-a-group-of-its-own", len(g.List) == 1)
 				markerAt[c.Text] = append(markerAt[c.Text], c.Slash)
@@ -179,13 +197,14 @@ func C03MarkerLayout() {
 	ma := markerAt["MARKERAAAAAAAAAAAAAAA"]
 	vrt.Assert("A-has-two-markers", len(ma) == 2)
 	if len(ma) == 2 {
-		vrt.Assert("A-markers-at-its-braces", ma[0] == la && ma[1] == ra)
+		// the cut runs from the type keyword to the closing brace
+		vrt.Assert("A-markers-at-its-braces", ma[0] == ta && ma[1] == ra)
 	}
 	if two {
 		mb := markerAt["MARKERBBBBBBBBBBBBBBB"]
 		vrt.Assert("B-has-two-markers", len(mb) == 2)
 		if len(mb) == 2 {
-			vrt.Assert("B-markers-at-its-braces", mb[0] == braces[2] && mb[1] == braces[3])
+			vrt.Assert("B-markers-at-its-braces", mb[0] == braces[2]-16 && mb[1] == braces[3])
 		}
 	}
 	vrt.Reach("end")
